@@ -21,7 +21,7 @@ open KV KV.Auth KV.Spec.Sasl
 def seenOf : Item → Seen
   | .wrote .apiVersions => .apiVersions
   | .wrote (.saslHandshake _) => .saslHandshake
-  | .wrote (.saslAuthenticate _) => .saslAuthenticate
+  | .wrote (.saslAuthenticate _ _) => .saslAuthenticate
   | .wrote (.rawToken _) => .rawToken
   | .wrote (.other k) => .other k
   | .verdict => .verdict
@@ -29,7 +29,7 @@ def seenOf : Item → Seen
 /-- environment events that are failures of the exchange: error code in an answer, connection closed,
 any other I/O failure, a failing mechanism step -/
 def bad : Env → Bool
-  | .versions err _ => err != 0
+  | .versions err _ _ => err != 0
   | .reply err _ _ => err != 0
   | .eof => true
   | .ioerr => true
@@ -91,7 +91,7 @@ macro "react_cases" h:ident : tactic =>
                (try split at $h:ident) <;> (try split at $h:ident) <;>
                simp only [Option.some.injEq, reduceCtorEq, failWith] at $h:ident <;> (try subst $h:ident)))
 
-theorem authWire_isAuth (v : Nat) (t : Bytes) : (authWire v t).isAuth = true := by
+theorem authWire_isAuth (v av : Nat) (t : Bytes) : (authWire v av t).isAuth = true := by
   unfold authWire; split <;> rfl
 
 theorem react_write_auth {c : Cfg} {ph : Phase} {e : Env} {a : Act} (h : react c ph e = some a)
@@ -99,7 +99,7 @@ theorem react_write_auth {c : Cfg} {ph : Phase} {e : Env} {a : Act} (h : react c
   react_cases h <;> simp_all [authWire_isAuth] <;> simp [Wire.isAuth]
 
 theorem react_ready {c : Cfg} {ph : Phase} {e : Env} {a : Act} (h : react c ph e = some a)
-    (hr : a.next = .ready) : ph = .ready ∨ (isDone e = true ∧ ∃ v, ph = .awaitNext v) ∨ c.sasl = false := by
+    (hr : a.next = .ready) : ph = .ready ∨ (isDone e = true ∧ ∃ v av, ph = .awaitNext v av) ∨ c.sasl = false := by
   react_cases h <;> simp_all [isDone]
 
 theorem react_err_iff {c : Cfg} {ph : Phase} {e : Env} {a : Act} (h : react c ph e = some a) :
@@ -115,12 +115,12 @@ theorem react_verdict {c : Cfg} {ph : Phase} {e : Env} {a : Act} (h : react c ph
   react_cases h <;> simp_all [isFinalOk]
 
 theorem react_awaitNext {c : Cfg} {ph : Phase} {e : Env} {a : Act} (h : react c ph e = some a)
-    {v : Nat} (hn : a.next = .awaitNext v) : ∃ d f, e = .reply 0 d f := by
+    {v av : Nat} (hn : a.next = .awaitNext v av) : ∃ d f, e = .reply 0 d f := by
   react_cases h <;> simp_all
 
 theorem react_ready' {c : Cfg} {ph : Phase} {e : Env} {a : Act} (h : react c ph e = some a)
     (hr : a.next = .ready) :
-    (ph = .ready ∧ ∃ k, e = .use k) ∨ ((∃ v, ph = .awaitNext v) ∧ ∃ tok, e = .mechNext (some (true, tok))) ∨
+    (ph = .ready ∧ ∃ k, e = .use k) ∨ ((∃ v av, ph = .awaitNext v av) ∧ ∃ tok, e = .mechNext (some (true, tok))) ∨
       c.sasl = false := by
   react_cases h <;> simp_all
 
@@ -195,7 +195,7 @@ def isUse : Env → Bool
 /-- history invariant: `hist` is the script consumed so far -/
 structure Hist (c : Cfg) (hist : List Env) (s : State) : Prop where
   noBad : s.phase ≠ .failed → ∀ e ∈ hist, bad e = false
-  lastReply : ∀ v, s.phase = .awaitNext v → ∃ h0 d f, hist = h0 ++ [.reply 0 d f]
+  lastReply : ∀ v av, s.phase = .awaitNext v av → ∃ h0 d f, hist = h0 ++ [.reply 0 d f]
   accepted : s.phase = .ready → c.sasl = true →
     ∃ h0 d f tok us, hist = h0 ++ [.reply 0 d f, .mechNext (some (true, tok))] ++ us ∧ ∀ u ∈ us, isUse u = true
   failedClosed : s.phase = .failed → s.closed = true ∧ s.result.isSome = true
@@ -219,20 +219,20 @@ theorem hist_step {c : Cfg} {hist : List Env} {s s' : State} {e : Env}
         cases hb : bad e' with
         | false => rfl
         | true => exact absurd (react_bad hr hb) hn
-    · intro v hv
+    · intro v av hv
       simp only [State.apply] at hv
       obtain ⟨d, f, he⟩ := react_awaitNext hr hv
       exact ⟨hist, d, f, by rw [he]⟩
     · intro hrd hs
       simp only [State.apply] at hrd
-      rcases react_ready' hr hrd with ⟨hp, k, hk⟩ | ⟨⟨v, hv⟩, tok, ht⟩ | hns
+      rcases react_ready' hr hrd with ⟨hp, k, hk⟩ | ⟨⟨v, av, hv⟩, tok, ht⟩ | hns
       · obtain ⟨h0, d, f, tok, us, hh, hu⟩ := hi.accepted hp hs
         refine ⟨h0, d, f, tok, us ++ [e], by rw [hh]; simp, ?_⟩
         intro u hu'
         rcases List.mem_append.mp hu' with hu' | hu'
         · exact hu u hu'
         · simp at hu'; subst hu'; rw [hk]; rfl
-      · obtain ⟨h0, d, f, hh⟩ := hi.lastReply v hv
+      · obtain ⟨h0, d, f, hh⟩ := hi.lastReply v av hv
         exact ⟨h0, d, f, tok, [], by rw [hh, ht]; simp, by simp⟩
       · rw [hs] at hns; cases hns
     · intro hf
@@ -414,7 +414,7 @@ theorem only_auth_before_broker_verdict (c : Cfg) (hs : c.sasl = true) (es : Lis
 lets a normal request out before the broker's verdict -/
 theorem unsound_mechanism_counterexample :
     let c : Cfg := { path := .dialer, sasl := true }
-    let es : List Env := [.versions 0 (some (0, 1)), .reply 0 [] false, .mechStart (some [1]),
+    let es : List Env := [.versions 0 (some (0, 1)) (some (0, 1)), .reply 0 [] false, .mechStart (some [1]),
                           .reply 0 [2] false, .mechNext (some (true, [])), .use 3]
     (run c es).map (fun s => orderHolds (s.log.map seenOf)) = some false := by decide
 
@@ -470,25 +470,25 @@ theorem plain_nul_counterexample : parsePlain (plainStart [97, 0, 98] [99]) = no
 script is taken, the mechanism is sound, the connection is handed out, and the journal is exactly
 ApiVersions, SaslHandshake, one token carrying the RFC 4616 message, verdict, then the application's
 requests. -/
-theorem plain_accepts (c : Cfg) (hs : c.sasl = true) (ha : c.addrOk = true) (hsv : Option (Int × Int)) (v : Nat)
+theorem plain_accepts (c : Cfg) (hs : c.sasl = true) (ha : c.addrOk = true) (hsv auv : Option (Int × Int)) (v : Nat)
     (hv : (match c.path with | .dialer => negotiateConn hsv | .transport => some (selectTransport hsv)) = some v)
     (user pass d mechs : Bytes) (k : Nat) :
-    let es := [Env.versions 0 hsv, .reply 0 mechs false] ++ plainEvents user pass (.reply 0 d true) ++ [.use k]
+    let es := [Env.versions 0 hsv auv, .reply 0 mechs false] ++ plainEvents user pass (.reply 0 d true) ++ [.use k]
     mechSound false es = true ∧
     run c es = some { phase := .ready, closed := false, result := none,
                       log := [.wrote .apiVersions, .wrote (.saslHandshake v),
-                              .wrote (authWire v (plainMessage [] user pass)), .verdict, .wrote (.other k)] } := by
+                              .wrote (authWire v (authVersion c.path auv) (plainMessage [] user pass)), .verdict, .wrote (.other k)] } := by
   obtain ⟨path, sasl, addrOk⟩ := c
   simp at hs ha; subst hs; subst ha
   cases path <;> simp at hv <;>
     simp [run, runFrom, start, step, react, hv, plainEvents, plainNext, State.apply, mechSound, isDone, isFinalOk,
           plain_format]
 
-example : run { path := .transport, sasl := true } [.versions 0 (some (0, 1)), .reply 33 [] false] =
+example : run { path := .transport, sasl := true } [.versions 0 (some (0, 1)) (some (0, 0)), .reply 33 [] false] =
     some { phase := .failed, closed := true, result := some (.kafka 33),
            log := [.wrote .apiVersions, .wrote (.saslHandshake 1)] } := by decide
 
-example : run { path := .dialer, sasl := true } [.versions 0 (some (0, 0)), .reply 0 [] false, .mechStart (some [7]), .eof] =
+example : run { path := .dialer, sasl := true } [.versions 0 (some (0, 0)) none, .reply 0 [] false, .mechStart (some [7]), .eof] =
     some { phase := .failed, closed := true, result := some (.kafka 58),
            log := [.wrote .apiVersions, .wrote (.saslHandshake 0), .wrote (.rawToken [7])] } := by decide
 
@@ -497,7 +497,21 @@ fails, the freshly opened connection is closed, and a Dialer has written nothing
 example : run { path := .dialer, sasl := true, addrOk := false } [] =
     some { phase := .failed, closed := true, result := some .other, log := [] } := by decide
 
-example : run { path := .transport, sasl := true, addrOk := false } [.versions 0 none] =
+example : run { path := .transport, sasl := true, addrOk := false } [.versions 0 none none] =
     some { phase := .failed, closed := true, result := some .other, log := [.wrote .apiVersions] } := by decide
+
+/-- Kafka 1.0/1.1 shape: SaslHandshake 0..1 but SaslAuthenticate 0..0.  The handshake goes out as v1, so
+the token is FRAMED (a SaslAuthenticate v0 request) on both paths — the range advertised for
+SaslAuthenticate never makes the client fall back to raw bytes. -/
+theorem framing_follows_handshake (p : Path) (au : Option (Int × Int)) (tok : Bytes) :
+    (run { path := p, sasl := true } [.versions 0 (some (0, 1)) au, .reply 0 [] false, .mechStart (some tok)]).map
+      (fun s => s.log.getLast?) = some (some (.wrote (.saslAuthenticate (authVersion p au) tok))) := by
+  cases p <;> simp [run, runFrom, start, step, react, negotiateConn, selectTransport, authWire, State.apply]
+
+/-- and after a v0 handshake the token is raw, whatever is advertised for SaslAuthenticate -/
+theorem raw_follows_handshake_v0 (p : Path) (au : Option (Int × Int)) (tok : Bytes) :
+    (run { path := p, sasl := true } [.versions 0 (some (0, 0)) au, .reply 0 [] false, .mechStart (some tok)]).map
+      (fun s => s.log.getLast?) = some (some (.wrote (.rawToken tok))) := by
+  cases p <;> simp [run, runFrom, start, step, react, negotiateConn, selectTransport, authWire, State.apply]
 
 end KV.C18
